@@ -20,6 +20,9 @@ REPO = os.environ.get("PSV_REPO", "/repo")
 PSX = os.environ.get("PSV_PSX") or os.path.join(VERIF, "bin", "psx")
 
 
+BROKEN = []          # rules of the current run that could not be applied (anchor vanished, shape not identified): see report.Check.finish
+
+
 class AnalysisBroken(Exception):
     """The analysis itself cannot run or lost an anchor: exit code 2."""
 
